@@ -88,6 +88,29 @@ def perturb(T, rng):
     return rebuild(0, X)
 
 
+DELTAS = [1, 31, 128, 2 ** 31 - 1, 2 ** 32, 2 ** 61 - 1, 2 * (2 ** 61 - 1), 2 ** 63, 2 ** 64]
+
+
+def perturb_all(T):
+    """every type that differs from T at exactly one tag position: each other class, and the number moved by each of
+    DELTAS (small steps, octet and word sizes, and the moduli Python's own hashing of integers works with - two numbers
+    that collide under hash() are still different tags)"""
+    path = []
+    X = T
+    while X[0] in ('imp', 'exp'):
+        path.append(X); X = X[2]
+    out = []
+    for i in range(len(path)):
+        kind, t, _ = path[i]
+        variants = [(c, t[1], t[2]) for c in CLASSES if c != t[0]] + [(t[0], t[1], t[2] + d) for d in DELTAS]
+        for t2 in variants:
+            Y = X
+            for k in range(len(path) - 1, -1, -1):
+                Y = (path[k][0], t2 if k == i else path[k][1], Y)
+            out.append(Y)
+    return out
+
+
 def py_tagset(T):
     """the type's tags innermost first as (class, number), following tag.py"""
     if T[0] == 'imp':
@@ -139,6 +162,19 @@ def run_stacks(ctx):
                         dp = I.run_decode('BER', ep[1], asn1Spec=c.spec)
                         if dp[0] != 'ok' or dp[2] or not U.aval_eq(U.absval_top(dp[1], c.T), c.want):
                             ctx.prop_fail('the type does not accept the segmented encoding of a Python value it guided', mm)
+        # every single-position near miss (class or number) must be refused by the implementation
+        for T3 in perturb_all(c.T):
+            if py_tagset(T3) == py_tagset(c.T): continue
+            try:
+                spec3 = U.build_type(T3)
+            except Exception:
+                continue
+            ctx.stats['near-miss types (systematic)'] += 1
+            d3 = I.run_decode('BER', e[1], asn1Spec=spec3)
+            if d3[0] == 'ok':
+                ctx.prop_fail('encoding accepted by a type whose tags differ at one level', dict(m, other=T3))
+            elif not I.is_library(d3[1]):
+                ctx.prop_fail('near-miss type made the decoder crash: %s' % d3[1], dict(m, other=T3))
         T2 = perturb(c.T, ctx.rng)
         if T2 is not None and py_tagset(T2) != py_tagset(c.T):
             try:
